@@ -72,6 +72,10 @@ def run(ctx):
     whole_scans(ctx, ctx.budget(400, 6000))
 
 
+def scan_oracle(ctx, data, depth, tree, out):
+    return NO.walk(tree, NO.c14_node) if tree is not None else []
+
+
 def search(ctx):
     ctx.tier = "thorough"
     run(ctx)
